@@ -731,7 +731,7 @@ class C07(Plan):
             for part in ("clone", "closure", "cmp"):
                 j += simple_jobs("memcheck", ["faults", "seed=%d" % seed, "part=%s" % part], p, timeout=3000)
             j += [Job("memcheck", ["faults", "seed=%d" % seed, "part=iter", "shadow=0"], san_props=p, crash_props=p, timeout=3000,
-                      valgrind_args=["--errors-for-leak-kinds=none"])]
+                      valgrind_args=["--leak-check=no"])]
             for tb in (False, True):
                 for part, n in (("iter", 5), ("clone", 4), ("closure", 3), ("cmp", 7)):
                     for only in range(n):
@@ -828,7 +828,7 @@ class C15(Plan):
             j += [Job("asan", ["uninit", "seed=%d" % (seed + 3), "maxlen=70", "shard=%d" % k, "nshards=8", "shadow=0"], san_props=p, crash_props=p,
                       env={"ASAN_OPTIONS": "detect_leaks=0:halt_on_error=1:exitcode=98"}) for k in range(8)]
             j += [Job("memcheck", ["uninit", "seed=%d" % seed, "shadow=0", "shard=%d" % k, "nshards=16"], san_props=p, crash_props=p, timeout=3000,
-                      valgrind_args=["--errors-for-leak-kinds=none"]) for k in range(16)]
+                      valgrind_args=["--leak-check=no"]) for k in range(16)]
             j += [Job("miri", ["uninit", "seed=%d" % seed, "maxlen=9", "shard=%d" % k, "nshards=64"], san_props=p, crash_props=p, miri_seed=seed * 4096 + k,
                       tb=(k % 4 == 3), miri_extra="-Zmiri-ignore-leaks", timeout=3000) for k in range(64)]
         return j
